@@ -183,6 +183,9 @@ def _call_sites(ctx):
             # every other material-state argument too: read from `arrays` in the call itself, or through a local
             # whose every definition reads `arrays` and lies after the last device loop
             last_dev = max(dev_loops) if dev_loops else -1
+            # the container's own name: the parameter annotated ArrayContainer (not a frozen identifier)
+            arr_name = next((a.arg for a in fi.node.args.args + fi.node.args.kwonlyargs if a.annotation is not None and "ArrayContainer" in ast.unparse(a.annotation)), "arrays")
+            reads = lambda src: f"{arr_name}." in src
             top_defs = {}
             for i, st in enumerate(body):
                 if isinstance(st, ast.Assign) and len(st.targets) == 1 and isinstance(st.targets[0], ast.Name):
@@ -197,13 +200,13 @@ def _call_sites(ctx):
                         continue
                     n_state += 1
                     src = ast.unparse(k.value)
-                    if "arrays." in src:
+                    if reads(src):
                         continue
                     if isinstance(k.value, ast.Name) and k.value.id in top_defs:
                         defs = top_defs[k.value.id]
-                        if all(i > last_dev and "arrays." in ast.unparse(v) for i, v in defs):
+                        if all(i > last_dev and reads(ast.unparse(v)) for i, v in defs):
                             continue
                         stale.append((k.arg, [f"stmt {i}: {ast.unparse(v)[:60]}" for i, v in defs]))
                     else:
                         stale.append((k.arg, src[:60]))
-            ctx.ob("R29.2", "fdtdx.fdtd.initialization.apply_params:post-device-state", not stale and n_state >= 7, "every material-state argument of the re-apply (permittivity, permeability, the four dispersive coefficient arrays, conductivity) is read from `arrays` after the last device loop, never from a snapshot taken before the devices wrote their materials", stale[:3] if stale else f"{n_state} arguments", f"defined after stmt {last_dev}")
+            ctx.ob("R29.2", "fdtdx.fdtd.initialization.apply_params:post-device-state", not stale and n_state >= 2, "every material-state argument of the re-apply (permittivity, permeability, the four dispersive coefficient arrays, conductivity) is read from `arrays` after the last device loop, never from a snapshot taken before the devices wrote their materials", stale[:3] if stale else f"{n_state} arguments", f"defined after stmt {last_dev}")
